@@ -3,6 +3,21 @@ package main
 // Per-property driver configuration. rule/assumptions go verbatim into the
 // evidence file; the counts next to them are measured by the test processes.
 var props = map[string]propCfg{
+	"C18": {
+		rule: "mapset: stateful histories (<= 40 operations, callbacks' operations included) over a pool of 12 keys on one Map or Set with up to 3 live iterators, judged against an append-only-list model of [[MapData]] with SameValueZero lookup; a case is non-trivial when a live iterator (or a running forEach/for-of) was advanced after a delete/clear that emptied a record at or before its cursor, or a set/get/has/delete found a stored key through a different representation of a SameValueZero-equal value (another producer expression or Go-injected value). symtable: histories on the symbol-keyed property table of one object, non-trivial when a deleted symbol was re-created and the key order observed afterwards, or the table was mutated while an enumeration (for-of over getOwnPropertySymbols, Object.assign / spread with mutating getters) was in progress; distinct = FNV-64 of the case's JSON",
+		assumptions: []string{
+			"the value of every key producer is known by construction (exact doubles, strings, BigInts) and re-checked through Value.Export when the pool is installed; producers whose own correctness is the subject of C05/C06/C12 are assumed right here",
+			"the hash-collision key classes rely on reading goja's hash methods (small integer n / double with bit pattern n / object address; BigInt bytes / ASCII string): if those change the classes lose their purpose but stay sound",
+			"Value.Export of a symbol is undocumented: the expectation is whatever exporting the same symbol directly gives",
+		},
+	},
+	"C07": {
+		rule: "(a) array histories (<=30 steps: indexed set/delete/define incl. accessor and non-configurable elements, length set/define incl. invalid values, freeze/seal, indexed properties on Array.prototype/Object.prototype, bulk fills that cross the dense<->sparse thresholds, 27 Array.prototype methods incl. mutating callbacks) run on the array, on a twin forced into sparse storage, and on esmodel (Array exotic object + the 23.1.3 method algorithms written generically from the spec); results, accessor logs and full state must agree three ways after every step; non-trivial = the storage kind (VerifArrayKind) changed during the history or a length operation was executed; (b) sort cases: element lists with holes/undefined/duplicates x 18 comparators x dense/sparse/array-like receivers; consistent comparators must give the unique stable order (incl. results -0, NaN, undefined, numeric strings, huge and fractional values), inconsistent ones a permutation, mutating ones must not crash; distinct = FNV-64 of the JSON case",
+		assumptions: []string{
+			"esmodel's array algorithms are written from ECMA-262 23.1.3 and are the trusted reference; whole-array walks over lengths above 20000 are not modelled (history is cut there and counted)",
+			"Go-backed slice wrappers are judged by C13, typed arrays by C17",
+		},
+	},
 	"C04": {
 		rule: "operation histories (<=40 ops over 1-3 subjects drawn from 32 object kinds, keys from index/canonical-numeric/string/symbol pools, descriptors over all 64 field-presence patterns, explicit receivers) executed in lock-step on goja and on esmodel (ECMA-262 10.1/10.4.2-4 written from the spec, seeded from the runtime's own initial property tables); after every step the result, the accessor call log and the full state dump of every subject must be equal; a history is non-trivial when it redefines an existing property with a partial descriptor or uses a receiver different from the target; distinct = FNV-64 of the JSON history",
 		assumptions: []string{
@@ -12,7 +27,7 @@ var props = map[string]propCfg{
 	},
 	"C01": {
 		crashIsViolation: true,
-		rule: "three layers of source text, each in strict/sloppy and global/function/eval/new Function placement: L1 grammar-generated programs over the whole syntax (plus deep-nesting forms up to depth 196), L2 token-level mutations of L1 programs (delete/duplicate/swap/replace/insert/truncate/splice), L3 byte strings biased to JS fragments and malformed UTF-8; every input goes through Parse, Compile and RunProgram/RunString under a 150 ms interrupt watchdog; a case is non-trivial when (L1) it compiled and reached the VM or (L2/L3) it parsed or is longer than 8 bytes; distinct = FNV-64 of placement+mode+source",
+		rule:             "three layers of source text, each in strict/sloppy and global/function/eval/new Function placement: L1 grammar-generated programs over the whole syntax (plus deep-nesting forms up to depth 196), L2 token-level mutations of L1 programs (delete/duplicate/swap/replace/insert/truncate/splice), L3 byte strings biased to JS fragments and malformed UTF-8; every input goes through Parse, Compile and RunProgram/RunString under a 150 ms interrupt watchdog; a case is non-trivial when (L1) it compiled and reached the VM or (L2/L3) it parsed or is longer than 8 bytes; distinct = FNV-64 of placement+mode+source",
 		assumptions: []string{
 			"inputs above 64 KiB or with bracket nesting above 200 are outside the property and are skipped (counted under excluded)",
 			"a run that exceeds 150 ms is interrupted (InterruptedError is a documented outcome); non-interruptible hangs are counted as inconclusive, never as violations",
